@@ -341,7 +341,7 @@ func mkPeer(c symCfg, pl Plugin) *peer {
 
 // fsmInOpenSent: an FSM as sendOpenAndSetHoldTimer leaves it (conn set, 4-minute hold timer, reader started).
 func fsmInOpenSent(p *peer, conn net.Conn) *fsm {
-	f := newFSM(p, conn)
+	f := newFSM(p, verifDirOf(conn), conn)
 	f.holdTimer = time.NewTimer(longHoldTime)
 	f.startReading()
 	return f
@@ -377,3 +377,7 @@ func fsmNegotiated(p *peer, conn net.Conn, remoteHold uint16, remoteID uint32) *
 	c.deliver(wasAvail+2, wasFinal)
 	return f
 }
+
+// direction used for FSMs that harnesses construct directly (the state functions do not depend on it;
+// the manager channels are not used by those harnesses)
+func verifDirOf(c net.Conn) int { return in }
